@@ -35,10 +35,12 @@ class FieldArrayModel(FieldCompositeModel):
         
         # Holds a cached version of the sum constraint
         self.sum_expr_btor = None
+        self.sum_expr_btor_ctx = None
         self.sum_expr = None
         
         # Holds a cached version of the sum constraint
         self.product_expr_btor = None
+        self.product_expr_btor_ctx = None
         self.product_expr = None
         
         self.size = FieldScalarModel(
@@ -162,8 +164,10 @@ class FieldArrayModel(FieldCompositeModel):
         return result_bits
         
     def build_sum_expr(self, btor, ctx_width=-1):
-        if self.sum_expr_btor is None:
+        # The cached node is only valid for the solver instance that built it
+        if self.sum_expr_btor is None or self.sum_expr_btor_ctx is not btor:
             self.sum_expr_btor = self.get_sum_expr().build(btor, ctx_width)
+            self.sum_expr_btor_ctx = btor
         return self.sum_expr_btor
     
     def get_product_expr(self):
@@ -188,8 +192,10 @@ class FieldArrayModel(FieldCompositeModel):
         return self.product_expr
         
     def build_product_expr(self, btor, ctx_width=-1):
-        if self.product_expr_btor is None:
+        # The cached node is only valid for the solver instance that built it
+        if self.product_expr_btor is None or self.product_expr_btor_ctx is not btor:
             self.product_expr_btor = self.get_product_expr().build(btor, ctx_width)
+            self.product_expr_btor_ctx = btor
         return self.product_expr_btor    
         
     def accept(self, v):
